@@ -196,4 +196,52 @@ theorem emitN_emitAt (ext : Ext) (o : Obj) (slots : Slots) (kids : Kids) (out : 
             · exact hkids w' hw' width' hs' hc'
         · cases h
 
+/-! ### the owned value with the offsets the packer stored -/
+
+/-- the owned value whose offset scalars are the offsets found in the output: `o` with the offset fields replaced by
+the entries of `vA` -/
+def patchObj (slots : Slots) (o : Obj) (vA : View) : Obj :=
+  vA.filter (fun e => (slotW slots e.1).isSome) ++ o
+
+theorem lookup_filter_slot (slots : Slots) (vA : View) (f : Nat) :
+    (vA.filter (fun e => (slotW slots e.1).isSome)).lookup f = if (slotW slots f).isSome then vA.lookup f else none := by
+  induction vA with
+  | nil => simp [List.lookup]
+  | cons e rest ih =>
+    obtain ⟨k, v⟩ := e
+    simp only [List.filter]
+    cases hk : (slotW slots k).isSome with
+    | true =>
+      simp only [List.lookup]
+      by_cases hf : f = k
+      · subst hf; simp [hk]
+      · have : (f == k) = false := by simpa using hf
+        simp only [this, ih]
+    | false =>
+      simp only [List.lookup]
+      by_cases hf : f = k
+      · subst hf; simp [hk, ih]
+      · have : (f == k) = false := by simpa using hf
+        simp only [this, ih]
+
+theorem patch_get_nonslot (slots : Slots) (o : Obj) (vA : View) (f : Nat) (h : slotW slots f = none) :
+    (patchObj slots o vA).get f = o.get f := by
+  unfold patchObj Obj.get
+  rw [List.lookup_append, lookup_filter_slot, h]
+  simp
+
+theorem patch_get_slot (slots : Slots) (o : Obj) (vA : View) (f x : Nat) (h : slotW slots f ≠ none)
+    (hl : vA.lookup f = some (.num x)) : (patchObj slots o vA).get f = .num x := by
+  unfold patchObj Obj.get
+  have : (slotW slots f).isSome = true := by
+    cases hs : slotW slots f with
+    | none => exact absurd hs h
+    | some _ => rfl
+  rw [List.lookup_append, lookup_filter_slot, this, if_pos rfl, hl]
+  simp
+
+/-- the offset fields of `Gdef` (write-fonts generated_gdef.rs): glyph class def, attach list, lig caret list, mark attach
+class def (16-bit), mark glyph sets (16-bit, version ≥ 1.2), item variation store (32-bit, version ≥ 1.3) -/
+def gdefSlots : Slots := [(1, 2), (2, 2), (3, 2), (4, 2), (5, 2), (6, 4)]
+
 end FontVerif.FieldNested
